@@ -193,12 +193,17 @@ Definition apply_deco (w : world) (cur : nat) (d : deco) : res (world * nat) :=
       | Some chf =>
           match fo_pre chf with
           | Some rp =>
-              (* add_precondition_to_checker: create group 0 if there is none, append to it *)
-              let '(w2, g) := match group_refs w1 rp with
-                              | g :: _ => (w1, g)
-                              | [] => let '(wa, g) := alloc w1 [] in (heap_append wa rp (IGroup g), g)
-                              end in
-              Ok (heap_append w2 g (IContract c), result)
+              (* add_precondition_to_checker: at most one group (groups are merged by the meta-class only);
+                 create group 0 if there is none, append to it *)
+              match group_refs w1 rp with
+              | _ :: _ :: _ => Err "AssertionError"
+              | gs =>
+                  let '(w2, g) := match gs with
+                                  | g :: _ => (w1, g)
+                                  | [] => let '(wa, g) := alloc w1 [] in (heap_append wa rp (IGroup g), g)
+                                  end in
+                  Ok (heap_append w2 g (IContract c), result)
+              end
           | None => Err "AssertionError"
           end
       | None => Err "KeyError"
@@ -370,7 +375,8 @@ Record cdecl := {
 
 Inductive defop :=
 | DefFunction (m : mdecl)
-| DefClass (c : cdecl).
+| DefClass (c : cdecl)
+| DefRedecorate (k : nat) (name : string) (d : deco).   (* [K.name = decorator(K.name)] after the class was created *)
 
 (** building the namespace: accessors of one property are combined into one property object *)
 (** the property an accessor is attached to: the one being built in this class body, or - for
@@ -473,12 +479,23 @@ Fixpoint has_dup (l : list string) : bool :=
 
 Definition is_ctor (key : string) : bool := String.eqb key "__init__" || String.eqb key "__new__".
 
+(** the groups inherited from the bases are copied into list objects of their own ([_collapse_preconditions]): a
+    precondition appended later to a group of this function does not reach the bases *)
+Fixpoint copy_groups (w : world) (gs : list ref) : world * list ref :=
+  match gs with
+  | [] => (w, [])
+  | g :: r =>
+      let '(w1, g') := alloc w (deref w g) in
+      let '(w2, r') := copy_groups w1 r in
+      (w2, g' :: r')
+  end.
+
 (** returns the (possibly new) function object to store in the namespace *)
 Definition decorate_namespace_fn (w : world) (bases : list nat) (dbc_base : bool) (key : string) (acc : mkind) (f : nat)
   : res (world * nat) :=
   let own_checker := find_checker w f in
   let '(own_g, own_s, own_p) := lists_of_checker w own_checker in
-  r <- (if is_ctor key then Ok (own_g, own_s, own_p)
+  r <- (if is_ctor key then Ok ([], own_g, own_s, own_p)
         else
           let '(have0, bg, bs, bp) := collect_bases w bases key acc in
           (* [icontract.DBC] named as a base: it "has" every attribute of [object], without contracts *)
@@ -488,9 +505,9 @@ Definition decorate_namespace_fn (w : world) (bases : list nat) (dbc_base : bool
           else
             let snaps := dedupe_snaps (bs ++ own_s) [] in
             if has_dup (map sname snaps) then Err "ValueError"
-            else Ok (bg ++ own_g, snaps, bp ++ own_p)) ;;
-  let '(gs, ss, ps) := r in
-  if is_nil gs && is_nil ps then Ok (w, f)
+            else Ok (bg, own_g, snaps, bp ++ own_p)) ;;
+  let '(bgs, ogs, ss, ps) := r in
+  if is_nil (bgs ++ ogs) && is_nil ps then Ok (w, f)
   else
     c <- (match own_checker with
           | Some ch => Ok (w, ch, f)
@@ -501,7 +518,8 @@ Definition decorate_namespace_fn (w : world) (bases : list nat) (dbc_base : bool
     | None => Err "KeyError"
     | Some chf =>
         (* the merged lists are new list objects assigned to the checker's attributes *)
-        let '(w2, rp) := alloc w1 (map IGroup gs) in
+        let '(w1c, bgs') := copy_groups w1 bgs in
+        let '(w2, rp) := alloc w1c (map IGroup (bgs' ++ ogs)) in
         let '(w3, rs) := alloc w2 (map ISnapshot ss) in
         let '(w4, rq) := alloc w3 (map IContract ps) in
         Ok (set_func w4 ch {| fo_role := fo_role chf; fo_wrapped := fo_wrapped chf; fo_pre := Some rp;
@@ -757,13 +775,21 @@ Definition step_def (w : world) (op : defop) : res world :=
       Ok {| w_heap := w_heap w1; w_funcs := w_funcs w1; w_classes := w_classes w1; w_registered := w_registered w1;
             w_module := w_module w1 ++ [snd r] |}
   | DefClass c => define_class w c
+  | DefRedecorate k name d =>
+      if negb (is_live w k) then Err "NameError" else      (* the class statement had raised: the name is unbound *)
+      match class_getattr w k name with
+      | Some (MemFunc MPlain f) =>
+          r <- apply_deco w f d ;;
+          Ok (class_ns_set (fst r) k name (MemFunc MPlain (snd r)))
+      | _ => Err "AttributeError"
+      end
   end.
 
 (** a definition that raises binds nothing; a failed class statement leaves a dead slot so that
     classes keep the numbers of their statements *)
 Definition fail_def (w : world) (op : defop) : world :=
   match op with
-  | DefFunction _ => w
+  | DefFunction _ | DefRedecorate _ _ _ => w
   | DefClass _ => {| w_heap := w_heap w; w_funcs := w_funcs w;
                      w_classes := w_classes w ++ [dead_class (List.length (w_classes w))];
                      w_registered := w_registered w; w_module := w_module w |}
